@@ -306,6 +306,11 @@ func NewProxy(obj interface{}) (*Proxy, error) {
 		return nil, errz.TypeErrorf("type error: unable to proxy type (%T given)", obj)
 	}
 
+	// Every attribute access goes through the pointer
+	if typ.Kind() == reflect.Pointer && reflect.ValueOf(obj).IsNil() {
+		return nil, errz.TypeErrorf("type error: unable to proxy a nil pointer (%T given)", obj)
+	}
+
 	// If it's a struct value, convert to a pointer to make it mutable
 	if typ.Kind() == reflect.Struct {
 		// Create a pointer to a copy of the struct
